@@ -7,7 +7,9 @@ from harness.drivers import engine_cases_ctl as ecc
 ID = "C09"
 PROP_FILE = "Props/C09.v"
 THEOREMS = ["C09_deferred_is_trace_spec", "C09_defer_request_only_sets_flag", "C09_checkpoint_honours_deferred",
-            "C09_grace_sleep_then_pause", "C09_pausing_has_a_cause", "C09_pausing_with_checkpoint_pauses"]
+            "C09_grace_sleep_then_pause", "C09_pausing_has_a_cause", "C09_pausing_with_checkpoint_pauses",
+            "C09_deferred_pause_end_to_end", "C09_deferred_pause_stays_pending",
+            "C09_deferred_pause_after_clear_checkpoint", "C09_empty_replay_is_silent"]
 impl_batch = cc.impl_batch
 coq_term = cc.coq_term
 RULE = ec.RULE + ("; plus C09 extras: checkpoint spacing 0..5, a deferred pause at every `_run` step, plans without a further "
